@@ -608,6 +608,178 @@ theorem step_prev (s : St) (e : Ev) :
                   intro ht
                   simp [stopOuts, ht]
 
+theorem scheduleLoop_outs : ∀ fuel (s s' : St) outs, scheduleLoop fuel s = .ok (s', outs) →
+    ∀ o, o ∈ outs → ∃ p hs, o = Out.fetch p hs := by
+  intro fuel
+  induction fuel with
+  | zero => intro s s' outs h; simp [scheduleLoop] at h; obtain ⟨_, rfl⟩ := h; simp
+  | succ k ih =>
+    intro s s' outs h
+    simp only [scheduleLoop] at h
+    split at h
+    · simp at h; obtain ⟨_, rfl⟩ := h; simp
+    · split at h
+      · simp at h; obtain ⟨_, rfl⟩ := h; simp
+      · generalize searchCandidate s = sc at h
+        obtain ⟨s1, cand⟩ := sc
+        simp only at h
+        split at h
+        · simp at h; obtain ⟨_, rfl⟩ := h; simp
+        · split at h
+          · simp at h; obtain ⟨_, rfl⟩ := h; simp
+          · split at h
+            · simp at h
+            · split at h
+              · simp at h
+              · rename_i s2 outs2 heq
+                simp at h; obtain ⟨_, rfl⟩ := h
+                intro o ho
+                simp at ho
+                rcases ho with rfl | ho
+                · exact ⟨_, _, rfl⟩
+                · exact ih _ _ _ heq o ho
+
+theorem connectNext_cur {s s' : St} {outs : List Out} (h : connectNext s = .ok (s', outs)) :
+    ∀ b, s'.curBlock = some b → s.curBlock = some b ∨ b ∈ delivered outs := by
+  unfold connectNext at h
+  split at h
+  · simp at h; obtain ⟨rfl, rfl⟩ := h; intro b hb; exact Or.inl hb
+  · rename_i hcb
+    split at h
+    · simp at h; obtain ⟨rfl, rfl⟩ := h
+      intro b hb
+      simp only at hb
+      rw [hb] at hcb; simp at hcb
+    · split at h
+      · simp at h
+      · simp at h; obtain ⟨rfl, rfl⟩ := h
+        intro b hb
+        simp at hb; subst hb
+        right; simp [delivered]
+
+/-- The block being connected has been handed to the chain service by this step or was being
+connected before; the success notice is sent only on the acknowledgement of a target-height block. -/
+theorem step_cur (s : St) (e : Ev) :
+    (∀ b, (step s e).1.curBlock = some b → s.curBlock = some b ∨ b ∈ delivered (step s e).2) ∧
+    (Out.stop none ∈ (step s e).2 → ∃ cb, s.curBlock = some cb ∧ cb.no = s.target) := by
+  unfold step
+  split
+  · exact ⟨fun b hb => Or.inl hb, by simp⟩
+  · have triv : FInv (fun _ _ => True) s :=
+      ⟨fun _ _ _ _ _ => trivial, fun _ _ _ _ _ => trivial, fun _ _ _ _ _ => trivial, fun _ _ _ _ _ => trivial⟩
+    cases e with
+    | hashSet st hs => exact ⟨fun b hb => Or.inl hb, by simp⟩
+    | sched =>
+      simp only
+      cases hs : schedule s with
+      | error e => exact ⟨fun b hb => Or.inl hb, by simp⟩
+      | ok x =>
+        obtain ⟨s', outs⟩ := x
+        obtain ⟨_, h2, _⟩ := scheduleLoop_inv _ _ _ _ _ triv hs
+        refine ⟨fun b hb => Or.inl (by rw [← h2.2.2.2]; exact hb), ?_⟩
+        intro hmem
+        obtain ⟨p, hs', hc⟩ := scheduleLoop_outs _ _ _ _ hs _ hmem
+        cases hc
+    | tick d =>
+      simp only
+      cases ht : tick s d with
+      | error e => exact ⟨fun b hb => Or.inl hb, by simp [Except.map]⟩
+      | ok s1 =>
+        simp only [Except.map]
+        obtain ⟨_, h2⟩ := tick_inv _ triv ht
+        exact ⟨fun b hb => Or.inl (by rw [← h2.2.2.2]; exact hb), by simp⟩
+    | chunk peer err blocks =>
+      simp only
+      cases hc : chunkRsp s peer err blocks with
+      | error e => exact ⟨fun b hb => Or.inl hb, by simp⟩
+      | ok x =>
+        obtain ⟨s', outs⟩ := x
+        simp only
+        unfold chunkRsp at hc
+        split at hc
+        · split at hc
+          · simp at hc; obtain ⟨rfl, rfl⟩ := hc; exact ⟨fun b hb => Or.inl hb, by simp⟩
+          · obtain ⟨_, _, h3⟩ := connectNext_static hc
+            refine ⟨?_, fun hmem => absurd hmem (h3 none)⟩
+            intro b hb
+            rcases connectNext_cur hc b hb with h1 | h1
+            · left
+              simp only at h1
+              revert h1
+              unfold freePeer; split <;> exact id
+            · exact Or.inr h1
+        · split at hc
+          · simp at hc; obtain ⟨rfl, rfl⟩ := hc; exact ⟨fun b hb => Or.inl hb, by simp⟩
+          · split at hc
+            · simp at hc
+            · rename_i s1 hft
+              simp at hc; obtain ⟨rfl, rfl⟩ := hc
+              obtain ⟨_, hpe⟩ := failTask_inv (fun _ _ => True)
+                (s := { s with running := _ }) ⟨fun _ _ _ _ _ => trivial, fun _ _ _ _ _ => trivial, fun _ _ _ _ _ => trivial, fun _ _ _ _ _ => trivial⟩
+                (fun _ _ _ => trivial) hft
+              exact ⟨fun b hb => Or.inl (by rw [← hpe.2.2.2]; exact hb), by simp⟩
+    | addRsp no hash err nilHash =>
+      simp only
+      cases hc : addRsp s no hash err nilHash with
+      | error e => exact ⟨fun b hb => Or.inl hb, by simp⟩
+      | ok x =>
+        obtain ⟨s', outs⟩ := x
+        simp only
+        unfold addRsp at hc
+        split at hc
+        · simp at hc
+        · split at hc
+          · simp at hc
+          · split at hc
+            · simp at hc
+            · rename_i cb hcb
+              split at hc
+              · simp at hc
+              · split at hc
+                · simp at hc
+                · rename_i s1 outs1 hcn
+                  simp at hc; obtain ⟨rfl, rfl⟩ := hc
+                  obtain ⟨_, _, h3⟩ := connectNext_static hcn
+                  refine ⟨?_, ?_⟩
+                  · intro b hb
+                    rcases connectNext_cur hcn b hb with h1 | h1
+                    · simp at h1
+                    · right; rw [delivered_append]; exact List.mem_append_right _ h1
+                  · intro hmem
+                    simp only [List.mem_append] at hmem
+                    rcases hmem with hmem | hmem
+                    · refine ⟨cb, hcb, ?_⟩
+                      unfold stopOuts at hmem
+                      split at hmem
+                      · assumption
+                      · simp at hmem
+                    · exact absurd hmem (h3 none)
+
+/-- **Success is reported only after a block of the target height was handed over.** For every
+event list: if the success notice is among the outputs, a block of the target height is among the
+blocks handed to the chain service. -/
+theorem run_stop_none_delivered : ∀ (es : List Ev) (s : St),
+    Out.stop none ∈ (run s es).2 →
+    (∃ b, s.curBlock = some b ∧ b.no = s.target) ∨ ∃ b, b ∈ delivered (run s es).2 ∧ b.no = s.target := by
+  intro es
+  induction es with
+  | nil => intro s h; simp [run] at h
+  | cons e es ih =>
+    intro s h
+    simp only [run] at h ⊢
+    obtain ⟨hc1, hc2⟩ := step_cur s e
+    have ht := (step_prev s e).1
+    simp only [List.mem_append] at h
+    rcases h with h | h
+    · exact Or.inl (hc2 h)
+    · rcases ih _ h with ⟨b, hb, hbt⟩ | ⟨b, hb, hbt⟩
+      · rcases hc1 b hb with h1 | h1
+        · exact Or.inl ⟨b, h1, by rw [← ht]; exact hbt⟩
+        · right
+          exact ⟨b, by rw [delivered_append]; exact List.mem_append_left _ h1, by rw [← ht]; exact hbt⟩
+      · right
+        exact ⟨b, by rw [delivered_append]; exact List.mem_append_right _ hb, by rw [← ht]; exact hbt⟩
+
 theorem run_target : ∀ (es : List Ev) (s : St), (run s es).1.target = s.target := by
   intro es
   induction es with
